@@ -174,4 +174,72 @@ theorem spec_dump {t : Table} (h : TInv t) (s : Nat) (hcap : ∀ i, i < 256 → 
     have ebj : bj.index = j := by rw [dumpEntry_some hbj]; rfl
     omega
 
+/-! ## the local key never changes -/
+
+theorem access_local {t : Table} {key i : Nat} {t1 : Table} (ha : t.access key = some (i, t1)) :
+    t1.localKey = t.localKey := by
+  unfold Table.access at ha
+  cases hbi : bucketIndex (t.localKey ^^^ key) with
+  | none => simp [hbi] at ha
+  | some k =>
+    simp only [hbi, Option.some.injEq, Prod.mk.injEq] at ha
+    obtain ⟨_, ht1⟩ := ha
+    subst ht1
+    cases ((t.bucket k).applyPending t.now (2 * t.ops)).2 <;> rfl
+
+theorem iterFrom_local : ∀ (n : Nat) (t : Table) (i : Nat), (t.iterFrom i n).localKey = t.localKey
+  | 0, _, _ => rfl
+  | n + 1, t, i => by rw [iterFrom_succ, iterFrom_local n, record_local]; rfl
+
+theorem step_local (t : Table) (op : Op) : (t.step op).1.localKey = t.localKey := by
+  cases op with
+  | insert key value st =>
+    cases ha : t.access key with
+    | none => simp only [Table.step, ha]; rfl
+    | some it1 =>
+      obtain ⟨i, t1⟩ := it1
+      simp only [Table.step, ha]
+      cases (t1.bucket i).entryKind key <;> simp only <;> exact access_local ha
+  | update key st =>
+    cases ha : t.access key with
+    | none => simp only [Table.step, ha]; rfl
+    | some it1 =>
+      obtain ⟨i, t1⟩ := it1
+      simp only [Table.step, ha]
+      cases (t1.bucket i).entryKind key <;> simp only <;> exact access_local ha
+  | remove key =>
+    cases ha : t.access key with
+    | none => simp only [Table.step, ha]; rfl
+    | some it1 =>
+      obtain ⟨i, t1⟩ := it1
+      simp only [Table.step, ha]
+      cases (t1.bucket i).entryKind key <;> simp only
+      · exact access_local ha
+      · exact access_local ha
+      · generalize (t1.bucket i).remove key = res
+        obtain ⟨b', r⟩ := res
+        cases r with
+        | none => exact access_local ha
+        | some x => obtain ⟨node, s, p⟩ := x; exact access_local ha
+      · unfold Bucket.removePending
+        cases (t1.bucket i).pending <;> exact access_local ha
+  | lookup key =>
+    cases ha : t.access key with
+    | none => simp only [Table.step, ha]; rfl
+    | some it1 => obtain ⟨i, t1⟩ := it1; simp only [Table.step, ha]; exact access_local ha
+  | bucketInfo key =>
+    cases ha : t.access key with
+    | none => simp only [Table.step, ha]; rfl
+    | some it1 => obtain ⟨i, t1⟩ := it1; simp only [Table.step, ha]; exact access_local ha
+  | iter => simp only [Table.step]; exact iterFrom_local _ _ _
+  | advance n => rfl
+
+theorem run_local (ops : List Op) : ∀ t : Table, (t.run ops).localKey = t.localKey := by
+  induction ops with
+  | nil => intro t; rfl
+  | cons o os ih =>
+    intro t
+    show ((t.step o).1.run os).localKey = _
+    rw [ih, step_local]
+
 end C37
